@@ -203,6 +203,24 @@ Proof.
   - vm_compute. discriminate.
 Qed.
 
+(* Seek on the sampled-response iterator: after one Next on a series that has floats and
+   histograms, a Seek that has nothing to do (the current sample is already >= t) moves the
+   histogram cursor from -1 to 0, and the first histogram is never returned *)
+Lemma sampled_seek_mixed_refuted : exists all skip t,
+  ts_sorted all /\ below_noTS all /\ no_negzero all /\ seek_probe (floats_of all) (hists_of all) skip t <> Some (Some (seek_spec all skip t)).
+Proof.
+  exists [mkS 10 KF 1; mkS 20 KH 3; mkS 30 KF 2], 1%nat, 10.
+  split; [repeat constructor|split; [repeat constructor|split]].
+  - repeat constructor; intros _; vm_compute; discriminate.
+  - vm_compute. intros H. congruence.
+Qed.
+
+(* ... while on the same series a fresh iterator seeks correctly (the probe is not vacuous) *)
+Example seek_fresh_example :
+  seek_probe (floats_of [mkS 10 KF 1; mkS 20 KH 3; mkS 30 KF 2]) (hists_of [mkS 10 KF 1; mkS 20 KH 3; mkS 30 KF 2]) 0 15
+  = Some (Some (seek_spec [mkS 10 KF 1; mkS 20 KH 3; mkS 30 KF 2] 0 15)).
+Proof. vm_compute. reflexivity. Qed.
+
 (* ------------------------------------------------------------------ streamed chunks: frames *)
 
 Lemma frames_go_concat md rest : forall acc left, rest <> [] ->
